@@ -766,7 +766,7 @@ func touchedInBlock(b *BlockCtx, x *ord) bool {
 
 func init() {
 	register(&PropSpec{ID: "C13", Level: "exploration",
-		Rule: "pool-heavy histories (creation, liquidity changes, trades over 1..4 hop routes, orders at, above and below the pool price, commission swaps) with reserves from 10^2 to 10^7 coins and extreme ratios; oracles: per block the reserve product of every pool without liquidity transactions never falls and pools never vanish; per transaction (counterfactual twins) a removal returns at most the proportional share and burns exactly the stated pool tokens, an addition could not be removed at once for more than was put in; the 1000-unit creation lock at the zero address never decreases; distinct non-trivial case = distinct (tx kind, result code) pair of pool transactions",
+		Rule: "pool-heavy histories (creation, liquidity changes, trades over 1..4 hop routes, orders at, above and below the pool price, commission swaps) with reserves from 10^2 to 10^7 coins and extreme ratios, dust additions whose second amount rounds to 0, 1 or 2 units; oracles: per block the reserve product of every pool without liquidity transactions never falls and pools never vanish; per transaction (counterfactual twins) a removal returns at most the proportional share and burns exactly the stated pool tokens, an addition could not be removed at once for more than was put in; the 1000-unit creation lock at the zero address never decreases; distinct non-trivial case = distinct (tx kind, result code) pair of pool transactions",
 		Make: func(r *rand.Rand, seed int64, chain int, tier string) *Scenario {
 			sc := baseScenario("C13", r, seed, chain, tier, PoolProfile(false), func(g *GenCfg, n *NodeCfg) {
 				g.NPool = 3 + r.Intn(4)
